@@ -1564,6 +1564,58 @@ fn family_review(g: &mut G, rng: &mut Rng, thorough: bool) {
         g.end();
     }
 
+    // ---- C17 / C04 (repair 2037586): an FDT Instance stops at MAX_FDT_SIZE = 16 MiB.  Exactly 16 MiB is received
+    //      (and kept), one byte more is refused by the FDT writer: Err, instance dropped.  Modelled.
+    for (k, total) in [(0usize, 16usize * 1024 * 1024), (1, 16 * 1024 * 1024 + 1)] {
+        if k == 0 && !thorough {
+            continue; // 34 MB of op lines per case: the accepted boundary only in the thorough tier
+        }
+        g.cfg2(&format!("fdt-size-cap-{}", k), 0, false, true, 1 << 16, true, true, 0, false, 0);
+        g.ctx.nontrivial(&format!("fdt-size-cap {}", k));
+        g.ctx.count("memory:fdt-size-cap");
+        let head = format!("<?xml version=\"1.0\" encoding=\"UTF-8\"?>\n<FDT-Instance xmlns=\"urn:IETF:metadata:2005:FLUTE:FDT\" Expires=\"{}\"><!--", far(11));
+        let tail = "--></FDT-Instance>\n";
+        let mut x = head.into_bytes();
+        x.extend(std::iter::repeat(b' ').take(total - x.len() - tail.len()));
+        x.extend_from_slice(tail.as_bytes());
+        for (i, p) in fdt_pkts_blocks(&x, 1, 65000, 64).iter().enumerate() {
+            g.push(p, T0 + i as i64);
+        }
+        g.probe();
+        g.cleanup(T0 + SEC, false);
+        g.end();
+    }
+
+    // ---- C04 (review batch 3): OBJECT-level FTI poisoning, the twin of same-id-poison-v3/v4: ONE forged object
+    //      datagram with a conflicting EXT_FTI for a TOI of the genuine session that follows (same TOI, no cleanup)
+    //      v0/v1: three carousel rounds (the object is interrupted in the first one and received in the second);
+    //      v2/v3: ONE round only - the TOI is lost (finding recv-6: the first OTI wins, the FDT is not the authority)
+    for variant in 0..4u8 {
+        let rounds = if variant < 2 { 3i64 } else { 1 };
+        let lens = [rng.range(40, 100) as usize, rng.range(1, 100) as usize];
+        let s = session(rng, T0 + SEC, true, 3600, 1, 1, &lens, 32, 8, true, 255);
+        g.cfg2(&format!("same-toi-poison-v{}", variant), 2, false, true, 1 << 16, true, true, 0, false, 0);
+        g.ctx.nontrivial(&format!("same-toi-poison {}", variant));
+        g.ctx.count("malformed:same-toi-poison");
+        let toi = s.objs[0].0;
+        let p = if variant % 2 == 0 {
+            mk_pkt(toi, None, 32, 8, true, 1u64 << 40, 0, 0, vec![0x3c; 32], false, None)
+        } else {
+            mk_pkt(toi, None, 16, 8, true, lens[0] as u64, 0, 0, vec![0x3c; 16], false, None)
+        };
+        g.push(&p, T0);
+        for round in 0..rounds {
+            for p in &s.pkts {
+                g.push(&p.0, p.1 + round * 10 * SEC);
+            }
+            g.cleanup(T0 + (round * 10 + 9) * SEC, false);
+        }
+        for (t, len) in &s.objs {
+            g.expect_c(*t, *len, if rounds > 1 { "C04:toi-blocked-by-forged-fti" } else { "C04:toi-lost-one-round-by-forged-fti" });
+        }
+        g.end();
+    }
+
     // ---- C04 (seeded C04-6): the FEC OTI arrives through the FDT XML (not EXT_FTI) and asks for source
     //      blocks beyond the code's maximum; then ONE object packet without EXT_FTI.  Child process.
     for (name, fec, b, ssi, ss) in [("raptorq", 6u8, 56404u32, "AQABBA==", (1u8, 1u32, 1u32, 4u32)), ("raptor", 1, 8193, "AAEBBA==", (2, 1, 1, 4)),
